@@ -112,6 +112,12 @@ func mutations(r *rand.Rand, leaves [][]byte, i int, p *merkle.Proof, other *mer
 		m.total = 1 + r.Int63n(2*n+2)
 		m.index = r.Int63n(m.total + 1)
 		out = append(out, m)
+		m = base("item nil (only the leaf hash held)")
+		m.item = nil
+		out = append(out, m)
+		m = base("item empty")
+		m.item = []byte{}
+		out = append(out, m)
 		m = base("index negative")
 		m.index = -1 - r.Int63n(5)
 		out = append(out, m)
@@ -919,7 +925,13 @@ func mutatePart(r *rand.Rand, full, other *types.PartSet, i, total int) partMut 
 	if total > 1 {
 		j = (i + 1 + r.Intn(total-1)) % total
 	}
-	switch r.Intn(14) {
+	switch r.Intn(16) {
+	case 14:
+		g.Bytes = nil // the bytes field omitted on the wire
+		return partMut{"bytes stripped (nil), proof genuine", g}
+	case 15:
+		g.Bytes = []byte{}
+		return partMut{"bytes emptied, proof genuine", g}
 	case 0:
 		g.Index = uint32(j)
 		return partMut{"index -> other, proof unchanged", g}
